@@ -134,6 +134,11 @@ NEEDED = {
  'C14-17': 'user instructions inside a flash-loan bracket of the acting account x bank x state',
  'C15-17': 'daily resets judged by the clock time at which they happen, not by the stored window start',
  'C17-17': 'reduce-only root on a utilised bank with a year of uncollected fees',
+ # round 7 (session 5)
+ 'C01-17': '(caught by the sibling check C06: the accrual sweep has curves whose rates reach the cap)',
+ 'C04-16': '(caught by the sibling check C09: confidence just over the maximum in the Switchboard condition matrix)',
+ 'C04-17': 'Drift gate with a collateral-value cap a hundred times the deposits: the borrow boundary must be the same with and without a cap that does not bite',
+ 'C06-17': 'bank flag words in the accrual sweep (token-less allowed / completed, frozen + close-enabled + permissionless settlement, rewards on)',
 }
 BUILT_AFTER = {'C09', 'C10', 'C11', 'C19'}  # checks written after their seeds existed
 
